@@ -121,7 +121,8 @@ class Worker:
         """
         try:
             obj = cls(**init_kwargs)
-        except Exception:
+        except BaseException:
+            # Incl. `SystemExit`: the coordinator is waiting for this signal.
             q_out.put(None)
             raise
         q_out.put(obj.name)
